@@ -318,6 +318,17 @@ func (s *Service) Stop(clearFutures bool) bool {
 	if clearFutures {
 		s.futureStore.Protect(false)
 		s.futureStore.Clear()
+
+		// cancel the futures of commands that are still queued, they are
+		// not part of the future store yet
+		for drained := false; !drained; {
+			select {
+			case cmd := <-s.commandQueue:
+				cmd.future.Cancel(nil)
+			default:
+				drained = true
+			}
+		}
 	}
 
 	return true
